@@ -11,6 +11,16 @@ import (
 	"strings"
 )
 
+// RepoDir is the checkout of the library under test: /repo, unless the
+// evaluation of a seeded change points VERIF_REPO at a scratch copy (the
+// registered checks never set it).
+func RepoDir() string {
+	if d := os.Getenv("VERIF_REPO"); d != "" {
+		return d
+	}
+	return "/repo"
+}
+
 type Member struct {
 	Kind     string    `json:"kind"` // "field", "component", "group"
 	Name     string    `json:"name"`
